@@ -25,6 +25,7 @@ LEVEL_TEXT = (
     "computed from the requested libraries alone (modules equal to a requested name or below it), and requesting "
     "libraries that define the same name must fail with MPilotError. The registry and sys.modules are restored after "
     "each history. A sample of constructions is cross-checked against a fresh interpreter process. Sampled histories."
+    ' The empty library selection is part of the requests.'
 )
 LEVEL_NOTE = "Classes that claim a __module__ equal to or below a generated library are not generated (that is membership of the library by Python's own notion)."
 RULE = (
